@@ -237,7 +237,7 @@ def nontrivial(text, res, ctx):
 
 
 PLAN = {
-    "quick": [("coarse", 10, 250), ("san", 4, 80), ("native", 2, 150)],
+    "quick": [("coarse", 7, 250), ("fine", 4, 200), ("san", 3, 80), ("native", 2, 150)],
     "thorough": [("coarse", 6, 5000), ("fine", 6, 3000), ("san", 2, 1500), ("nopool", 1, 1000),
                  ("native", 1, 2500)],
 }
